@@ -57,6 +57,9 @@ struct ClosureCanary { ctx: Arc<RunCtx>, p: usize }
 impl Drop for ClosureCanary {
     fn drop(&mut self) {
         self.ctx.pipes[self.p].closure_drops.fetch_add(1, ORD);
+        if let Some(q) = self.ctx.prog.pipes[self.p].chain_to {
+            if self.ctx.pipes[q].closed_stamp.load(ORD) == 0 { close_input(&self.ctx, q); }
+        }
         self.ctx.progress();
     }
 }
